@@ -342,14 +342,16 @@ impl Scenario for Incent {
         };
         let c13 = prop == "C13";
         let allow = Allow {
-            d7: rng.chance(1, 10),
-            d8: rng.chance(1, 5),
-            d9: rng.chance(if c13 { 3 } else { 1 }, 10),
+            // D7, D8, D9, N6 (long flows) and N7 (cw20 flow expansion) have been repaired in /repo: these
+            // input families are ordinary inputs now and are generated in most runs
+            d7: rng.chance(6, 10),
+            d8: rng.chance(7, 10),
+            d9: rng.chance(7, 10),
             d10: rng.chance(if c13 { 3 } else { 1 }, 10),
             n1: rng.chance(if c13 { 2 } else { 1 }, 10),
-            long_flows: rng.chance(1, 12),
+            long_flows: rng.chance(1, 5),
             d11: rng.chance(if c13 { 3 } else { 2 }, 10),
-            n3: rng.chance(if prop == "C12" { 2 } else { 1 }, 10),
+            n3: rng.chance(7, 10),
         };
         Cfg {
             lp_native,
